@@ -1,5 +1,6 @@
 """C10 - AArch64 parser recovers every line and operand exactly as written."""
 import ast
+import re
 
 from .. import pm
 from ..pm import U
@@ -20,7 +21,7 @@ CLS = "ParserAArch64"
 
 
 def run(ctx):
-    C.require_locals(ctx, ctx.func('ParserAArch64.process_memory_address'), ['memory_address', 'offset', 'base', 'index', 'scale', 'valid_shift_ops'])
+    C.require_locals(ctx, ctx.func('ParserAArch64.process_memory_address'), ['memory_address', 'offset', 'base', 'index', 'scale'])
     C.require_locals(ctx, ctx.func('ParserAArch64.parse_line'), ['result'])
     C.require_locals(ctx, ctx.func('ParserAArch64.parse_instruction'), ['result', 'operands'])
     C.require_locals(ctx, ctx.func('ParserAArch64.resolve_range_list'), ['operand', 'index'])
@@ -52,10 +53,17 @@ def run(ctx):
               "the scale is not 2 ** (shift amount of the index register): %s" % [U(a.value) for a in init[1:]], m.qname, "scale power")
     if pw:
         facts = [U(e) for e, p in C.facts_at(pw[0]) if p]
-        ops = [a for a in C.assigns_to(m.node, "valid_shift_ops")]
-        lst = C.literal(ops[0].value) if ops else []
-        ok = any("shift_op" in t and "in valid_shift_ops" in t for t in facts) and "lsl" in lst and set(lst) <= {"lsl", "uxtw", "uxtb", "sxtw", "sxtx", "uxtx"}
-        ctx.check(ok, "R8", "scale only for lsl / extend operations %s" % lst, m.where(pw[0]), "shift-op guard changed: %s / %s" % (facts, lst),
+        mflow = C.flow_of(m)
+        lst, seen_guard = [], False
+        for e, p in C.norm_fact_nodes(pw[0]):
+            if p and isinstance(e, ast.Compare) and len(e.ops) == 1 and isinstance(e.ops[0], ast.In) and "shift_op" in U(mflow.subst(e.left)):
+                seen_guard = True
+                try:
+                    lst = list(ast.literal_eval(mflow.subst(e.comparators[0])))
+                except Exception:
+                    lst = []
+        ok = seen_guard and "lsl" in lst and set(lst) <= {"lsl", "uxtw", "uxtb", "sxtw", "sxtx", "uxtx"}
+        ctx.judge(ok, seen_guard and bool(lst), "R8", "scale only for lsl / extend operations %s" % lst, m.where(pw[0]), "shift-op guard changed: %s / %s" % (facts, lst),
                   m.qname, "shift op guard")
     mo = [c for c in ast.walk(m.node) if isinstance(c, ast.Call) and pm.call_name(c) == "MemoryOperand"]
     kw = {k.arg: U(k.value) for k in mo[0].keywords} if mo else {}
@@ -66,8 +74,18 @@ def run(ctx):
     ctx.rule("R9", "sp/zr aliases get prefix x; pre-index flag; post-index value converted")
     for reg in ("base", "index"):
         for alias in ("sp", "zr"):
-            hit = [n2 for n2 in ast.walk(m.node) if isinstance(n2, ast.If) and "%s['name'].lower() == '%s'" % (reg, alias) in U(n2.test)
-                   and any(U(s) == "%s['prefix'] = 'x'" % reg for s in n2.body)]
+            hit = []
+            for st_ in ast.walk(m.node):
+                if isinstance(st_, ast.Assign) and U(st_) == "%s['prefix'] = 'x'" % reg:
+                    for e, pol in C.norm_fact_nodes(st_):
+                        if not pol or not isinstance(e, ast.Compare) or len(e.ops) != 1:
+                            continue
+                        l_, r_ = e.left, e.comparators[0]
+                        if isinstance(e.ops[0], ast.Eq) and {U(l_), U(r_)} == {"%s['name'].lower()" % reg, repr(alias)}:
+                            hit.append(st_)
+                        if isinstance(e.ops[0], ast.In) and U(l_) == "%s['name'].lower()" % reg and isinstance(r_, (ast.Tuple, ast.List, ast.Set)) \
+                                and any(isinstance(x, ast.Constant) and x.value == alias for x in r_.elts):
+                            hit.append(st_)
             ctx.check(bool(hit), "R9", "%s register %s gets prefix x" % (reg, alias), m.where(),
                       "a %s register written as %s does not get the prefix x" % (reg, alias), m.qname, "%s %s prefix" % (reg, alias))
     sp = ctx.func(CLS + ".process_sp_register")
@@ -83,6 +101,22 @@ def run(ctx):
     ctx.check(bool(pre), "R9", "'!' sets pre_indexed", m.where(), "pre-index flag is not set from the '!' token", m.qname, "pre index")
     post = pm.find("M_d.post_indexed = {'value': int(memory_address['post_indexed']['value'], 0)}", m.node)
     if not post:
+        # the converted value reaches the store through a local / one arm of a conditional
+        mflow2 = C.flow_of(m)
+        want_v = C.CT("int(memory_address['post_indexed']['value'], 0)")
+        for st_ in [x for x in ast.walk(m.node) if isinstance(x, ast.Assign) and U(x.targets[0]).endswith(".post_indexed")]:
+            cands = [st_.value]
+            if isinstance(st_.value, ast.Name):
+                try:
+                    cands = [d_.value for d_ in mflow2.reaching(st_, st_.value.id) if d_.kind == "assign" and d_.value is not None]
+                except KeyError:
+                    cands = []
+            for v_ in cands:
+                for d_ in [v_] + ([v_.body, v_.orelse] if isinstance(v_, ast.IfExp) else []):
+                    if isinstance(d_, ast.Dict) and len(d_.keys) == 1 and isinstance(d_.keys[0], ast.Constant) and d_.keys[0].value == "value" \
+                            and C.CT(U(mflow2.subst(d_.values[0]))) == want_v:
+                        post = post or [(st_, None)]
+    if not post:
         # the same store as one arm of a conditional expression
         post = [(n2, None) for n2 in ast.walk(m.node) if isinstance(n2, ast.Assign) and U(n2.targets[0]).endswith(".post_indexed")
                 and isinstance(n2.value, ast.IfExp) and "{'value': int(memory_address['post_indexed']['value'], 0)}" in (
@@ -92,35 +126,97 @@ def run(ctx):
     # ---- R10 ranges / lists
     ctx.rule("R10", "register ranges expand inclusively; lists keep order; a trailing index reaches every member")
     r = ctx.func(CLS + ".resolve_range_list")
-    rng = pm.find("for M_n in range(int(M_s), int(M_e) + 1):\n    REST_", r.node)
-    ok = False
-    if rng:
-        s, e = U(rng[0][1]["M_s"]), U(rng[0][1]["M_e"])
-        sd = [a for a in C.assigns_to(r.node, s)]
-        ed = [a for a in C.assigns_to(r.node, e)]
-        ok = bool(sd) and bool(ed) and "['range'][0]" in U(C.flow_of(r).subst(sd[0].value)) and "['range'][1]['name']" in U(ed[0].value)
-    ctx.check(ok, "R10", "range(int(first), int(last) + 1)", r.where(), "register ranges are not expanded inclusively from the first "
-              "to the last register number", r.qname, "inclusive range")
-    name_set = pm.find("M_r['name'] = str(M_n)", r.node)
-    ctx.check(bool(name_set) and bool(rng) and U(name_set[0][1]["M_n"]) == U(rng[0][1]["M_n"]), "R10", "each member gets its own number",
+    rflow = C.flow_of(r)
+    RS = lambda e: U(rflow.subst(e))
+    opnd = r.params()[1]
+    loops = [l for l in ast.walk(r.node) if isinstance(l, ast.For) and C.is_call_to(l.iter, "range") and len(l.iter.args) == 2]
+    ok, rng = False, None
+    for l in loops:
+        lo, hi = RS(l.iter.args[0]), RS(l.iter.args[1])
+        aff = C.affine(rflow.subst(l.iter.args[1]))
+        terms = [k for k in aff if k != 1]
+        hi_ok = len(terms) == 1 and aff[terms[0]] == 1 and aff.get(1, 0) == 1 and terms[0].startswith("int(") \
+            and "['range'][1]['name']" in terms[0]
+        lo_ok = lo.startswith("int(") and "['range'][0]['name']" in lo
+        if lo_ok and hi_ok:
+            ok, rng = True, l
+        elif "['range'][0]" in lo or "['range'][1]" in hi:
+            rng = rng or l
+    ctx.judge(ok, rng is not None, "R10", "range(int(first), int(last) + 1)", r.where(rng) if rng is not None else r.where(),
+              "register ranges are not expanded inclusively from the first to the last register number", r.qname, "inclusive range")
+    name_set = [a for a in ast.walk(r.node) if isinstance(a, ast.Assign) and U(a.targets[0]).endswith("['name']") and rng is not None
+                and U(a.value) == "str(%s)" % U(rng.target) and C.in_subtree(a, rng)]
+    ctx.check(bool(name_set), "R10", "each member gets its own number",
               r.where(), "expanded members do not get the running number as name", r.qname, "member names")
     idx = [a for a in ast.walk(r.node) if isinstance(a, ast.Assign) and U(a.targets[0]).endswith("['index']")
-           and U(a.value) == "int(index, 0)"]
-    ctx.check(len(idx) == 2, "R10", "a trailing [index] is propagated to every member (list and range)", r.where(),
+           and C.CT(RS(a.value)) in (C.CT("int(%s['register'].get('index', None), 0)" % opnd), C.CT("int(%s['register'].get('index'), 0)" % opnd),
+                                     C.CT("int(%s['register']['index'], 0)" % opnd))]
+    passed_on = [c_ for c_ in ast.walk(r.node) if isinstance(c_, ast.Call) and isinstance(c_.func, ast.Attribute) and U(c_.func.value) == "self"
+                 and c_.func.attr != "process_register_operand" and any(U(a_) == "index" or "'index'" in U(a_) for a_ in c_.args)]
+    ctx.judge(len(idx) == 2, len(idx) == 2 or not passed_on, "R10", "a trailing [index] is propagated to every member (list and range)", r.where(),
               "the element index is propagated in %d of 2 branches" % len(idx), r.qname, "index propagation")
-    lst = [l for l in ast.walk(r.node) if isinstance(l, ast.For) and U(l.iter) == "operand['register']['list']"]
+    lst = [l for l in ast.walk(r.node) if isinstance(l, (ast.For, ast.comprehension)) and RS(l.iter) == "%s['register']['list']" % opnd]
     ctx.check(bool(lst), "R10", "list members are visited in written order", r.where(), "list iteration changed", r.qname, "list order")
-    ret = [x for x in ast.walk(r.node) if isinstance(x, ast.Return) and U(x.value) == "processed_list"]
-    ctx.check(len(ret) == 2, "R10", "both branches return the converted members", r.where(), "return of the member list changed", r.qname,
-              "return members")
+    # both branches hand back the converted members, in order: [process_register_operand(x) for x in <members built above>]
+    rets = [x for x in ast.walk(r.node) if isinstance(x, ast.Return) and x.value is not None and U(x.value) != opnd]
+    def converted(x):
+        """the returned list holds process_register_operand(m) for every member m, in order"""
+        pat = "[self.process_register_operand(M_x) for M_x in M_l]"
+        if pm.match(pat, x.value) is not None:
+            return True
+        if isinstance(x.value, ast.Name):
+            try:
+                ds_ = [d_ for d_ in rflow.reaching(x, x.value.id)]
+            except KeyError:
+                ds_ = []
+            if len(ds_) == 1 and ds_[0].kind == "assign" and pm.match(pat, ds_[0].value) is not None:
+                return True
+        if isinstance(x.value, ast.Name):
+            # built by an append loop: L = [] ... for m in <members>: L.append(self.process_register_operand(m))
+            nm = x.value.id
+            apps = [c_ for c_ in ast.walk(r.node) if isinstance(c_, ast.Call) and isinstance(c_.func, ast.Attribute) and c_.func.attr == "append"
+                    and U(c_.func.value) == nm and C.cfg_of(r).reachable(C.cfg_of(r).node_of(c_), x)]
+            ok_ = bool(apps)
+            for c_ in apps:
+                lp_ = C.enclosing_loop(c_)
+                ok_ = ok_ and isinstance(lp_, ast.For) and len(c_.args) == 1 and \
+                    pm.match("self.process_register_operand(%s)" % U(lp_.target), c_.args[0]) is not None
+            return ok_
+        return False
+    good_rets = [x for x in rets if converted(x)]
+    ctx.judge(len(good_rets) == 2, len(rets) == 2, "R10", "both branches return the converted members", r.where(),
+              "return of the member list changed", r.qname, "return members")
     pl = ctx.func(CLS + ".process_register_list")
-    ctx.check(bool(pm.find("M_l.append(self.list_element.parseString(M_r, parseAll=True).asDict())", pl.node)), "R10",
+    plf = C.flow_of(pl)
+    prm = pl.params()[1]
+    parsed = [c_ for c_ in ast.walk(pl.node) if isinstance(c_, (ast.ListComp, ast.GeneratorExp)) and len(c_.generators) == 1
+              and pm.match("self.list_element.parseString(%s, parseAll=True).asDict()" % U(c_.generators[0].target), c_.elt) is not None
+              and U(plf.subst(c_.generators[0].iter)).startswith(prm + "[")]
+    parsed += [n for n, _ in pm.find("M_l.append(self.list_element.parseString(M_r, parseAll=True).asDict())", pl.node)]
+    ctx.check(bool(parsed), "R10",
               "every written member is re-parsed as a register", pl.where(), "members are not re-parsed one by one", pl.qname, "member parse")
     inst = ctx.func(CLS + ".parse_instruction")
     order = [U(c.args[0]) for c in C.calls_to(inst.node, "process_operand")]
     ctx.check(order == ["result['operand%d']" % i for i in range(1, 6)], "R4", "operands are collected in written order 1..5", inst.where(),
               "operands are collected as %s" % order, inst.qname, "operand order")
-    ext = [n2 for n2 in ast.walk(inst.node) if isinstance(n2, ast.IfExp) and "extend" in U(n2) and "append" in U(n2)]
+    # per operand slot: the processed operand is spliced in when it is a list, appended otherwise (statement or expression form)
+    iflow = C.flow_of(inst)
+    slots = {"extend": set(), "append": set()}
+    for c_ in ast.walk(inst.node):
+        if isinstance(c_, ast.Call) and isinstance(c_.func, ast.Attribute) and c_.func.attr in ("extend", "append") and len(c_.args) == 1:
+            v_ = c_.args[0]
+            src_ = U(iflow.subst(v_))
+            m_ = re.fullmatch(r"self\.process_operand\(.*\['(operand\d)'\]\)", src_)
+            if m_ is None:
+                continue
+            nf_ = C.norm_fact_nodes(c_)
+            is_list = [pol for e, pol in nf_ if C.is_call_to(e, "isinstance") and len(e.args) == 2 and U(e.args[1]) == "list"
+                       and U(iflow.subst(e.args[0])) == src_]
+            if c_.func.attr == "extend" and is_list == [True]:
+                slots["extend"].add(m_.group(1))
+            if c_.func.attr == "append" and is_list == [False]:
+                slots["append"].add(m_.group(1))
+    ext = slots["extend"] & slots["append"]
     ctx.check(len(ext) == 5, "R10", "expanded lists are spliced into the operand list in place", inst.where(),
               "register lists are not extended into the operand list for all five operand slots", inst.qname, "splice lists")
     P.r6_trailing(ctx, CLS, gr)
